@@ -481,10 +481,28 @@ func TestC08(t *testing.T) {
 		if !limitScan(rec, try) {
 			return
 		}
-		propsSweep(rec, func(cfg gen.Cfg, data gen.Recipe) bool {
+		if !propsSweep(rec, func(cfg gen.Cfg, data gen.Recipe) bool {
 			seg := data[0]
 			return try(caseC08{Cfg: cfg, Steps: []stepW2{{Op: "write", Seg: &seg}, {Op: "flush"}, {Op: "close"}}})
-		})
+		}) {
+			return
+		}
+		// dictionary and look-ahead sizes around the 64 KiB compressed limit of
+		// a chunk (DictCap below it, DictCap+BufSize above it) with stored
+		// chunks closed inside Write: what the encoder still holds of a chunk
+		// when it decides to store it depends on both
+		for i, db := range [][2]int{{61440, 8192}, {49152, 16384}, {32768, 40000}, {61000, 4096}, {64512, 273}, {8192, 70000}, {65000, 2000}, {66000, 273}} {
+			if i%rec.Shards != rec.Shard {
+				continue
+			}
+			a := gen.Seg{Kind: "random", Len: 140000, Seed: uint64(300 + i)}
+			b := gen.Seg{Kind: "random", Len: 70000, Seed: uint64(400 + i)}
+			x := gen.Seg{Kind: "text", K: 4, Len: 5000, Seed: 7}
+			rec.Class("dict_and_lookahead_around_chunk_limit")
+			if !try(caseC08{Cfg: gen.Cfg{DefProps: true, DictCap: db[0], BufSize: db[1]}, Steps: []stepW2{{Op: "write", Seg: &a}, {Op: "write", Seg: &b}, {Op: "write", Seg: &x}, {Op: "close"}}}) {
+				return
+			}
+		}
 	})
 	if t.Failed() {
 		return
